@@ -376,6 +376,9 @@ def _export(d):
                 # the tessellation component set THROUGH the container: every element needs its own instance
                 obj.tessellator = _tsl.TriangularTessellate()
             obj.tessellate(vertex_spacing=d['s'], delta=d['update'])
+            if not d['update']:
+                # a second, forced tessellation of the unchanged container (render(force=True) does this): the same mesh again
+                obj.tessellate(vertex_spacing=d['s'], delta=False, force=True)
             if d['update'] and d['sizes'][0][0] % 2 == 0:
                 # the container mesh rebuilt with unchanged sampling (reset, tessellate again): ids start afresh
                 obj.vertices
